@@ -91,6 +91,12 @@ def run_job(arg):
     res = dict(name=job.get("name", "?"), stats={}, violations=[], unsupported=[], goals={}, samples=[],
                functions=[], concolic=0, mismatches=[], wall=0.0, error=None)
     try:
+        import signal
+
+        def _alarm(signum, frame):
+            raise RuntimeError("job watchdog: a single run did not finish (harness / scheduler hang)")
+        signal.signal(signal.SIGALRM, _alarm)
+        signal.alarm(max(60, int(deadline - time.time()) + 180))
         sys.setrecursionlimit(100000)
         from wsx import core, env, sxbuiltins
         from wsx.core import Engine, conc
@@ -153,6 +159,11 @@ def run_job(arg):
         res["functions"] = _funcs()
     except BaseException as e:  # noqa
         res["error"] = "%s: %s\n%s" % (type(e).__name__, e, traceback.format_exc()[-1500:])
+    try:
+        import signal
+        signal.alarm(0)
+    except Exception:
+        pass
     res["wall"] = time.time() - t0
     return res
 
